@@ -805,17 +805,34 @@ func c15AtomicWriter(c *Ctx) {
 		okFinal := false
 		desc := "CreateTemp directory is not filepath.Dir(<final path>)"
 		if dirOf != nil {
+			// the values the rename-target argument of the writer's constructor takes: at one call site (a φ of the final
+			// path and "") or over the call sites of the same constructor (one per branch)
+			type ctorArg struct {
+				sc  *ssa.Function
+				idx int
+			}
+			union := map[ctorArg][]ssa.Value{}
+			var order []ctorArg
 			for _, k := range callsIn(putRoot) {
 				sc := k.Call.StaticCallee()
 				if sc == nil || sc.Pkg == nil || sc.Pkg.Pkg.Path() != pk.PkgPath || len(k.Call.Args) != 2 || sc == putFn {
 					continue
 				}
-				for _, a := range k.Call.Args {
+				for i, a := range k.Call.Args {
 					if b, ok := a.Type().Underlying().(*types.Basic); !ok || b.Kind() != types.String {
 						continue
 					}
 					stopAt = dirOf
-					vals := valuesOf(a, 2)
+					key := ctorArg{sc, i}
+					if _, seen := union[key]; !seen {
+						order = append(order, key)
+					}
+					union[key] = append(union[key], valuesOf(a, 2)...)
+				}
+			}
+			for _, key := range order {
+				{
+					vals := union[key]
 					if len(vals) < 2 {
 						continue
 					}
